@@ -74,3 +74,20 @@ prop("C15",
          {"name": "main", "build": "fast", "bin": "c15"},
          {"name": "release", "build": "release", "bin": "c15"},
      ])
+
+prop("C06",
+     technique="runtime monitoring: reference-model (VecDeque) monitor over operation histories with poison-filled dead slots and unique ids; Miri (Stacked Borrows) and AddressSanitizer stages",
+     level_text=("The step relation is checked exhaustively from every valid state: capacities 1..=6 (quick) / 1..=8 (thorough) x every (start, len) / first x every "
+                 "operation (indices incl. usize::MAX) x four storage kinds, with every observer compared against the model after each step; plus seeded random "
+                 "histories (capacities to 64 / 1000). The same monitor runs under Miri (8/16 shards) and ASan for out-of-bounds/aliasing. Exploration: capacities "
+                 "are unbounded; the state space is exhausted only up to the stated capacity."),
+     level_note="trusted: std VecDeque as the queue model; poison pre-fill carries 'never exposes a dead slot', Miri/ASan carry 'no out-of-bounds or aliasing access'",
+     rule=("cases are (buffer kind, capacity, start/first, len, operation) steps and random operation histories; a step is non-trivial when the state is wrapped "
+           "(start/first != 0 or start+len >= capacity), i.e. beyond the fresh start-0 buffers the test-suite uses; distinct by hash of "
+           "(kind, cap, start, len, op); histories contribute their first 8 ops"),
+     stages=[
+         {"name": "main", "build": "fast", "bin": "c06"},
+         {"name": "miri", "build": "miri-sb", "bin": "c06", "shards": {"quick": 8, "thorough": 16}, "set": {"hist": {"quick": 40, "thorough": 160}},
+          "timeout": {"quick": 1500, "thorough": 7200}},
+         {"name": "asan", "build": "asan", "bin": "c06"},
+     ])
